@@ -440,6 +440,7 @@ type serverConn struct {
 	sawClientPreface            bool // preface has already been read, used in h2c upgrade
 	sawFirstSettings            bool // got the initial SETTINGS frame after the preface
 	needToSendSettingsAck       bool
+	settingsAcksOwed            int    // SETTINGS frames received and not yet acknowledged
 	unackedSettings             int    // how many SETTINGS have we sent without ACKs?
 	queuedControlFrames         int    // control frames in the writeSched queue
 	clientMaxStreams            uint32 // SETTINGS_MAX_CONCURRENT_STREAMS from client (our PUSH_PROMISE limit)
@@ -1282,7 +1283,8 @@ func (sc *serverConn) scheduleFrameWrite() {
 			continue
 		}
 		if sc.needToSendSettingsAck {
-			sc.needToSendSettingsAck = false
+			sc.settingsAcksOwed--
+			sc.needToSendSettingsAck = sc.settingsAcksOwed > 0
 			sc.startFrameWrite(FrameWriteRequest{write: writeSettingsAck{}})
 			continue
 		}
@@ -1633,6 +1635,7 @@ func (sc *serverConn) processSettings(f *SettingsFrame) error {
 	// TODO: judging by RFC 7540, Section 6.5.3 each SETTINGS frame should be
 	// acknowledged individually, even if multiple are received before the ACK.
 	sc.needToSendSettingsAck = true
+	sc.settingsAcksOwed++
 	sc.scheduleFrameWrite()
 	return nil
 }
